@@ -71,6 +71,56 @@ PROPS = {
         "level_note": "Trusted: clvmr (oracle values), harness; model = code on the cases run.",
         "technique": "Lean 4 executable model of full validation as the prescription for the helpers + differential correspondence",
     },
+    "C20": {
+        "extractors": ["streamable", "jsondict"],
+        "harness": "C20",
+        "harness_dir": "harness_py",          # second harness crate: embeds a Python interpreter (py-bindings)
+        "harness_bin": "vharness_py",
+        "theorems": [
+            "ChiaModel.C20.roundtrip", "ChiaModel.C20.roundtrip_same_bytes_and_hash", "ChiaModel.C20.no_nested_option",
+            "ChiaModel.C20.exported_roundtrip", "ChiaModel.C20.roundtrip_needs_WFjson",
+            "ChiaModel.C20.decoded_bytesOK", "ChiaModel.C20.from_bytes_roundtrip", "ChiaModel.C20.json_views_same_wire",
+            "ChiaModel.C20.rejects_wrong_length", "ChiaModel.C20.rejects_bad_digit", "ChiaModel.C20.rejects_odd_digits",
+            "ChiaModel.C20.rejects_missing_prefix", "ChiaModel.C20.bls_prefix_optional",
+            "ChiaModel.C20.rejects_uint_out_of_range", "ChiaModel.C20.rejects_sint_out_of_range", "ChiaModel.C20.rejects_enum_unknown",
+            "ChiaModel.C20.uint_accept", "ChiaModel.C20.rejects_non_int",
+            "ChiaModel.C20.rejects_tuple_count", "ChiaModel.C20.rejects_array_count",
+            "ChiaModel.C20.rejects_missing_key", "ChiaModel.C20.rejects_missing_key_pos",
+            "ChiaModel.C20.rejects_null", "ChiaModel.C20.rejects_null_field", "ChiaModel.C20.hex_fixed_accept",
+            "ChiaModel.C20.fromJson_canonical_partial", "ChiaModel.C20.fromJson_canonical_uint",
+            "ChiaModel.C20.empty_struct_accepts_anything", "ChiaModel.C20.bool_accepted_as_int", "ChiaModel.C20.vec_accepts_empty_str_and_dict",
+        ],
+        "gen_theorems": ["ChiaModel.C20.no_nested_option", "ChiaModel.C20.exported_roundtrip", "ChiaModel.C20.json_views_same_wire"],
+        "open": ["fromJson_canonical: fromJson t j = ok v => toJson t v = j up to the normalisations (hex case, optional 0x of BLS elements, \"0x\" for empty Bytes, "
+                 "extra keys, bool for int, iterable for list) - proved for the leaves only (fromJson_canonical_partial: accepted fixed-length hex re-renders as the same digits in lower case behind 0x; fromJson_canonical_uint), open for composite types"
+                 ],
+        "trivial": r"^(err |err$|bad-type|bad-json)",
+        "level": "proof",
+        "rule": "every type with ToJsonDict/FromJsonDict found by the translator (all #[streamable] classes of chia-protocol, the consensus and datalayer records, enums, "
+                "Bytes/BytesN/Program/BLS elements) plus instances of every primitive and combinator impl of chia-traits: 110 (quick) / up to 1500 (thorough) values per type produced as BYTES by a "
+                "descriptor-driven generator (integers at both ends of every width incl. u128/i128, None/Some, empty and nested lists, strings with every JSON escape class, "
+                "both FullBlock generator formats, v1 and v2 proofs of space), parsed by the real from_bytes, converted by the real to_json_dict (embedded CPython), json.dumps, "
+                "json.loads, real from_json_dict, ==, to_bytes, hash, with the property predicate evaluated on these results; for the first 4 (30) values of each type every single-point "
+                "corruption of the JSON tree (hex: +-1 byte, bad / non-ASCII / space digit, odd count, no / upper / double prefix, upper-case digits, empty, int list; integers: max+1, min-1, "
+                "negative, at both bounds, float, string, bool, null, list; bool/str by other types; lists as string/dict/null, appended null; tuples/arrays +-1 element; dicts: each key "
+                "missing (optional and not), null for each field, extra key, list/null/string instead; enums: unknown, 256, -1, bool, string, float), as text through json.loads into the "
+                "real from_json_dict. non-trivial = distinct case that is not a rejection",
+        "level_text": "Proof: roundtrip - for every descriptor satisfying WFjson and every well-formed value, fromJson (toJson v) = ok v (mutual induction over the descriptor universe, "
+                      "element lists, transparent structs and field lists incl. the packed option pairs, the generator tail and ProofOfSpace), hence identical encoding and hash "
+                      "(with C13: from_bytes_roundtrip - whatever from_bytes accepts comes back from its JSON as the same value whose encoding is the input); no_nested_option - every exported class regenerated from the source satisfies WFjson (kernel-decided), so the round trip is unconditional for the classes that "
+                      "exist, and roundtrip_needs_WFjson shows the side condition is exactly what fails for Option<Option<_>>; rejects_* - one theorem per malformation class over the whole "
+                      "descriptor universe: wrong byte length, invalid hex digit, odd digit count, missing 0x (Bytes/BytesN/Program), integer outside the width (uN, iN, enum discriminants), "
+                      "non-integers, wrong element count (tuples, arrays), missing key for ANY field (optional or not, incl. ProofOfSpace), null for a non-optional value; uint_accept / "
+                      "hex_fixed_accept characterise what is accepted (the integer itself, exactly the decoded bytes): never truncation, wrap or default. The leniencies of the real code "
+                      "that the property does not list are theorems too (bool as int, optional 0x and int lists for BLS elements, any iterable as list, extra keys, field-less structs accept anything).",
+        "level_note": "Trusted: Lean kernel + 3 standard axioms; translator (JSON views: keys incl. py_uppercase, transparent tuple structs; hand-written conversions and the derive pinned by digest); "
+                      "pyo3 extract as assumption PyExtract (range checks; bool is an int) compared on every boundary; CPython's json module renders/parses the text on the implementation side, "
+                      "the model has its own renderer (compared on every value) and parser; implementation = model only on the cases run.",
+        "trusted": ["pyo3 `extract::<uN/iN/bool/String/Vec<u8>>()` (assumption PyExtract: exact range checks, bool accepted as int) - compared at min-1/min/max/max+1 of every width on every run",
+                    "CPython json.dumps / json.loads on the implementation side (the model's renderer is compared with json.dumps on every value; its parser with json.loads through the verdicts)",
+                    "blst validity of G1/G2 candidates in JSON inputs is an oracle answer computed by the harness with the real library (`o=` entries)"],
+        "technique": "Lean 4 proofs by mutual structural induction over the descriptor universe; translator (JSON views) + differential correspondence through an embedded Python interpreter",
+    },
     "C13": {
         "extractors": ["streamable", "panicsites"],
         "harness": "C13",
